@@ -149,6 +149,26 @@ pub fn deep_token(levels: usize, depth: usize, shape: &str) -> String {
     presentation_string(&sign_hs256(&payload), &discs, "")
 }
 
+/// k chained member disclosures, each of whose values embeds the digest of the next one TWICE:
+/// a restorer that places a disclosure at every occurrence of its digest builds 2^k nodes before any
+/// duplicate check can reject the token
+pub fn dup_chain_token(k: usize) -> String {
+    let mut discs: Vec<String> = Vec::new();
+    let mut inner: Option<String> = None;
+    for i in (0..k).rev() {
+        let v = match &inner {
+            Some(d) => json!({"a": {"_sd": [d]}, "b": {"_sd": [d]}}),
+            None => json!(1),
+        };
+        let s = indep::b64url_encode(serde_json::to_string(&json!([format!("s{}", i), "n", v])).unwrap().as_bytes());
+        inner = Some(indep::hash("sha-256", &s));
+        discs.push(s);
+    }
+    discs.reverse();
+    let payload = json!({"_sd": [inner.unwrap()], "_sd_alg": "sha-256"});
+    presentation_string(&sign_hs256(&payload), &discs, "")
+}
+
 /// run in a child process: a stack overflow cannot be caught, it aborts the process
 pub fn deep_child(token: &str) -> ! {
     let t = token.to_string();
@@ -185,9 +205,27 @@ pub fn exec_deep(input: &Value) -> Value {
         .spawn()
         .unwrap();
     child.stdin.take().unwrap().write_all(token.as_bytes()).unwrap();
+    // a wall-clock limit: work that grows exponentially with the size of the token is a hang for this property
+    let limit = std::time::Duration::from_secs(input["limit_s"].as_u64().unwrap_or(120));
+    let start = std::time::Instant::now();
+    let mut timed_out = false;
+    loop {
+        match child.try_wait() {
+            Ok(Some(_)) => break,
+            Ok(None) => {
+                if start.elapsed() > limit {
+                    let _ = child.kill();
+                    timed_out = true;
+                    break;
+                }
+                std::thread::sleep(std::time::Duration::from_millis(20));
+            }
+            Err(_) => break,
+        }
+    }
     let out = child.wait_with_output().unwrap();
     let txt = String::from_utf8_lossy(&out.stdout).trim().to_string();
-    let o = if out.status.success() && !txt.is_empty() { txt } else { "abort".to_string() };
+    let o = if timed_out { "timeout".to_string() } else if out.status.success() && !txt.is_empty() { txt } else { "abort".to_string() };
     json!({"hverify": {"o": o}, "total_depth": levels * depth})
 }
 
@@ -265,6 +303,16 @@ pub fn generate(thorough: bool, seed: u64, em: &mut Emitter) {
             c["nontrivial"] = json!(true);
             em.case("deep", c);
         }
+    }
+    // (iii') repeated digests inside disclosure values: the work must not multiply level by level
+    for k in [3usize, 8, 24] {
+        let token = dup_chain_token(k);
+        let mut c = untrusted_case(&token, false, "dup_chain");
+        c["levels"] = json!(k);
+        c["depth"] = json!(1);
+        c["limit_s"] = json!(30);
+        c["nontrivial"] = json!(true);
+        em.case("deep", c);
     }
     // (iv) time claims at the edge of u64 through the JWT library's arithmetic
     let t = super::jwtk::now();
